@@ -177,6 +177,11 @@ class FromDAOState:
     Dictionary that marks objects as currently being processed by the `from_dao` method.
     """
 
+    keep_alive: InstanceDict = field(default_factory=dict)
+    """
+    Dictionary that prevents the memoized DAOs from being garbage collected, such that their ids are not reused.
+    """
+
     def has(self, dao_obj: Any) -> bool:
         return id(dao_obj) in self.memo
 
@@ -196,6 +201,7 @@ class FromDAOState:
         result = original_cls.__new__(original_cls)
         self.memo[id(dao_obj)] = result
         self.in_progress[id(dao_obj)] = True
+        self.keep_alive[id(dao_obj)] = dao_obj
         return result
 
     def parse_single(self, value: Any) -> tuple[Any, bool]:
